@@ -76,22 +76,25 @@ def cases():
         parser = env.real_parser("condition")
         for code in range(rc_glue.space_size(NLEAVES, NKINDS, ATTACH)):
             skel_i, ops, kinds, attach = rc_glue.decode(code)
-            spelling, brackets, dup = rc_glue.VARIANTS[code % 3]  # no duplicate keys here
-            b = shapes.build(NLEAVES, skel_i, ops, kinds, attach, spelling, brackets, 0)
-            tree = parser.parse(b.text)
-            try:
-                refsem.req(tree, {k: "FULFILLED" for k in b.rc})
-                valid = True
-            except refsem.OutOfScope:
-                continue
-            except refsem.Invalid:
-                valid = False
-            if not b.rc and not b.fc:
-                continue  # nothing to enumerate: not claimed either way (DESIGN §C18)
-            weight = 3 ** len(set(b.rc)) * 2 ** len(set(b.fc))
-            if weight > MAXW:
-                continue
-            out.append((PREFIXES[code % len(PREFIXES)] + b.text, valid, weight))
+            for dup in (0, 1):
+                spelling, brackets, _ = rc_glue.VARIANTS[code % 3]
+                b = shapes.build(NLEAVES, skel_i, ops, kinds, attach, spelling, brackets, dup)
+                if dup and b.text == shapes.build(NLEAVES, skel_i, ops, kinds, attach, spelling, brackets, 0).text:
+                    continue
+                tree = parser.parse(b.text)
+                try:
+                    refsem.req(tree, {k: "FULFILLED" for k in b.rc})
+                    valid = True
+                except refsem.OutOfScope:
+                    continue
+                except refsem.Invalid:
+                    valid = False
+                if not b.rc and not b.fc:
+                    continue  # nothing to enumerate: not claimed either way (DESIGN §C18)
+                weight = 3 ** len(set(b.rc)) * 2 ** len(set(b.fc))
+                if weight > MAXW:
+                    continue
+                out.append((PREFIXES[code % len(PREFIXES)] + b.text, valid, weight))
     _CASES[cfg] = out
     return out
 
